@@ -422,6 +422,10 @@ ARGS_LOOP:
 						if _, is := isOption(value, mode, false); is {
 							break
 						}
+						// The terminator is never an optional value, it ends option parsing.
+						if value == "--" {
+							break
+						}
 
 						// Validate that value matches expected format
 						switch cOpt.OptType {
